@@ -193,6 +193,46 @@ func Harness_C03escape(arg int) {
 	symReach("end")
 }
 
+// Harness_C03litbody: the body of a literal without escapes is symbolic (ASCII,
+// no backslash, not the closing quote; a double- or single-quoted literal holds
+// no newline). The value is the body itself - for a back-quoted (raw) literal
+// with the carriage returns discarded, as in Go. arg = quoting*8 + length.
+func Harness_C03litbody(arg int) {
+	qi, n := arg/8, arg%8
+	quotes := []byte{'"', '\'', '`'}
+	q := quotes[qi]
+	body := symBytes("b", n)
+	var want []byte
+	for _, b := range body {
+		symAssume(b < 0x80 && b != '\\' && b != q && b != 0)
+		if q != '`' {
+			symAssume(b != '\n')
+		}
+		if !(q == '`' && b == '\r') {
+			want = append(want, b)
+		}
+	}
+	if q == '\'' {
+		symAssume(n == 1)
+	}
+	text := []byte("A <- ")
+	text = append(text, q)
+	text = append(text, body...)
+	text = append(text, q, '\n')
+	g, err := Parse("", text)
+	symAssert(err == nil, "C03: a literal in the documented syntax was rejected")
+	if err == nil {
+		lit, isLit := g.(*ast.Grammar).Rules[0].Expr.(*ast.LitMatcher)
+		symAssert(isLit, "C03: literal text did not yield a literal matcher")
+		if isLit {
+			symDebug("got", []byte(lit.Val))
+			symDebug("want", want)
+			symAssert(symEqual(lit.Val, string(want)), "C03: a literal denotes a different value than its text (raw literals discard carriage returns)")
+		}
+	}
+	symReach("end")
+}
+
 // c03ClassEscape: the same escapes inside a class (\] instead of the quotes),
 // alone (form 0) or as the low end of a range (form 1). An escape denotes one
 // character: \xHH and \ooo the character with that code.
